@@ -260,7 +260,7 @@ def r03d(ctx):
 
 def r03e(ctx):
     repo = ctx.repo
-    ctx.rule("R03e", "zip readers normalise names alike; XmlPart serialisers declare and use UTF-8", floor=4)
+    ctx.rule("R03e", "zip readers normalise names alike; XmlPart serialisers declare and use UTF-8 and write the whole tree", floor=5)
     c = repo.cls("Container")
     readers = [fn for nm in ("_read_zip", "_get_zip_part", "_get_all_zip_part") for fn in c.methods.get(nm, [])]
     for fn in readers:
@@ -277,6 +277,17 @@ def r03e(ctx):
             ctx.instance("R03e", f"{fn.file}:{fn.ident}", f"part stored under normalize_path(name): {norm(s, 60)}", ok=norm_ok, line=s.lineno)
             if not norm_ok:
                 ctx.report("R03e", fn, s, s, "zip member stored under a non-normalised key: the lazy and the eager reader would disagree on names")
+    # the plain serialiser writes the whole tree: comments and processing instructions beside the root element belong to the part
+    f = repo.func("XmlPart.serialize")
+    ts = [n for n in walk_no_nested(f.node) if isinstance(n, ast.Call) and call_name(n) == "tostring" and n.args]
+    for t_ in ts:
+        src = canon(f, t_.args[0])
+        ok = "_get_tree()" in src and "getroot" not in src
+        ctx.instance("R03e", f"{f.file}:{f.ident}", f"tostring({norm(t_.args[0], 25)}) serialises the tree object ({src})", ok=ok, nontrivial=True, line=t_.lineno)
+        if not ok:
+            ctx.report("R03e", f, t_, f"tostring({src})",
+                       "XmlPart.serialize writes the root *element* instead of the tree: lxml then leaves out the comments, processing instructions and DOCTYPE that sit "
+                       "beside the root, so a part that has them is saved without them while the document in memory still holds them")
     for qual in ("XmlPart.serialize", "XmlPart.pretty_serialize"):
         f = repo.func(qual)
         hdr = [n.value for n in walk_no_nested(f.node) if isinstance(n, ast.Constant) and isinstance(n.value, bytes) and n.value.startswith(b"<?xml")]
@@ -462,6 +473,8 @@ from ..selftest import Seed, unparse_seed  # noqa: E402
 _CT = "src/odfdo/container.py"
 _DOC = "src/odfdo/document.py"
 SEEDS = [
+    Seed("XmlPart.serialize writes the root element only", "fault", "src/odfdo/xmlpart.py",
+         '        tree = self._get_tree()\n        bytes_tree = tostring(tree, encoding="unicode").encode("utf8")', '        root = self._get_tree().getroot()\n        bytes_tree = tostring(root, encoding="unicode").encode("utf8")', "R03e"),
     Seed("Document.set_part looks the class up before translating the shortcut", "fault", _DOC,
          "        path = path.lstrip(\"./\")\n        path = _get_part_path(path)\n        cls = _get_part_class(path)\n",
          "        path = path.lstrip(\"./\")\n        cls = _get_part_class(path)\n        path = _get_part_path(path)\n", "R03h"),
